@@ -33,6 +33,7 @@
 #include <netinet/in.h>
 #include <arpa/inet.h>
 #include "uv.h"
+#include "uv-common.h"   /* UV_HANDLE_INTERNAL, uv__queue_empty: observation mode only */
 
 #define MAXH 48
 #define MAXR 96
@@ -63,6 +64,8 @@ static char* bigbuf; static char rdbuf[65536];
 static const char* scratch;
 static int fd2h[MAXFD];
 static int udp_block, quiet, depth, in_close_call, pool_blocked, fp_unfenced, poll_ended;
+static int obs_mode, in_close_batch, loop_closed;   /* C02_OBS=1: liveness observations for C01 */
+static int closing_phase;   /* between the marker check callback and the next ordinary callback / prepare / uv_run return */
 static sem_t blocker_sem;
 static int rawl_fd = -1, rawl_port, rawl_fill[4];
 
@@ -85,6 +88,13 @@ static void ylog(int r, long st) {
   if (quiet) return;
   if (nyp < 64) snprintf(ypend[nyp++], 40, "y%d,%ld ", r, st);
 }
+
+/* ---------------------------------------------------------------- observation mode (C01)
+ * o<active_handles>,<active_reqs>,<uv_loop_alive>,<pending_queue non-empty>,<inside a close callback>,
+ *  <loop->closing_handles non-NULL>;<kind><active><ref><closing><closed>...   one group per handle the
+ * harness knows, in creation order; a handle whose close callback ran (its memory is gone) or whose init
+ * failed is printed as <kind>0011. */
+static void emit_obs(void);
 
 /* ---------------------------------------------------------------- descriptors */
 static int fd_link(int fd, char* out, size_t n) {
@@ -230,6 +240,23 @@ int __wrap_sendmmsg(int fd, struct mmsghdr* m, unsigned n, int fl) {
   errno = e; return r;
 }
 
+static void emit_obs(void) {
+  static char buf[4096]; int i, k;
+  if (!obs_mode || quiet || loop_closed) return;
+  k = snprintf(buf, sizeof buf, "o%u,%u,%d,%d,%d,%d;", loop->active_handles, loop->active_reqs.count,
+               uv_loop_alive(loop) ? 1 : 0, uv__queue_empty(&loop->pending_queue) ? 0 : 1,
+               in_close_batch ? 1 : 0, loop->closing_handles != NULL ? 1 : 0);
+  for (i = 0; i < nh && k < (int) sizeof buf - 8; i++) {
+    struct H* h = &HT[i];
+    if (h->closed || !h->inited)
+      k += snprintf(buf + k, sizeof buf - k, "%c0011", h->kind);
+    else
+      k += snprintf(buf + k, sizeof buf - k, "%c%d%d%d0", h->kind, uv_is_active(h->uv) ? 1 : 0,
+                    uv_has_ref(h->uv) ? 1 : 0, uv_is_closing(h->uv) ? 1 : 0);
+  }
+  tok("%s", buf);
+}
+
 /* ---------------------------------------------------------------- lifecycle monitor */
 static void do_ops(const char* ops, int in_cb);
 
@@ -260,7 +287,8 @@ static void handle_cb(void* p) {
   if (!h) tok("!callback-for-unknown-handle");
   else if (h->closed) tok("!late%d", h->id);   /* after close_cb */
   else {
-    tok("h%d", h->id); tok("{");
+    closing_phase = 0;
+    tok("h%d", h->id); emit_obs(); tok("{");
     run_beh(&behH[h->id]);
     tok("}");
   }
@@ -283,6 +311,10 @@ static void req_cb(void* p, int status) {
     if (h->closed) tok("!reqlate%d", r->id);
     tok("%c%d,%d", h->closing ? 'x' : 'q', r->id, status);
     free(r->uv);                                 /* the request block dies inside its callback */
+    /* a callback run by uv__finish_close (uv__stream_destroy / uv__udp_finish_close) is inside the close batch too */
+    if (h->closing && closing_phase) in_close_batch++;
+    emit_obs();
+    if (h->closing && closing_phase) in_close_batch--;
     tok("{");
     if (r->id < 1024) run_beh(&behQ[r->id]);
     tok("}");
@@ -318,9 +350,12 @@ static void on_close(uv_handle_t* p) {
     tok("c%d", h->id);
     if (h->kind == 'o') close(h->efd);
     free(h->uv);                                 /* the handle block dies inside close_cb */
+    in_close_batch++;
+    emit_obs();
     tok("{");
     run_beh(&behK[h->id]);
     tok("}");
+    in_close_batch--;
   }
   cb_leave();
 }
@@ -358,7 +393,7 @@ static void shutdown_cb(uv_shutdown_t* r, int st) { req_cb(r, st); }
 static void send_cb(uv_udp_send_t* r, int st) { req_cb(r, st); }
 
 /* markers: prepare = the poll phase is next, check = the closing phase is next */
-static void mark_prepare_cb(uv_prepare_t* p) { (void) p; poll_ended = 0; tok(".P"); }
+static void mark_prepare_cb(uv_prepare_t* p) { (void) p; poll_ended = 0; closing_phase = 0; tok(".P"); }
 static void mark_check_cb(uv_check_t* p) {
   int i; (void) p;
   poll_end();
@@ -368,6 +403,7 @@ static void mark_check_cb(uv_check_t* p) {
       tok("g%d,%d", i, (int) (s->caught_signals - s->dispatched_signals));
     }
   tok("K");
+  closing_phase = 1;
 }
 
 /* ---------------------------------------------------------------- pool control */
@@ -752,6 +788,15 @@ static void do_ops(const char* ops, int in_cb) {
     case 'e': op_rawdrain(a); break;
     case 'v': op_rawsend(a); break;
     case 'z': if (a >= 0 && a < nh) HT[a].blocked = b > 0; break;
+    case 'f': if (live(a) || (a >= 0 && a < nh && HT[a].inited && !HT[a].closed)) uv_ref(HT[a].uv); break;
+    case 'g': if (live(a) || (a >= 0 && a < nh && HT[a].inited && !HT[a].closed)) uv_unref(HT[a].uv); break;
+    case 'Q':
+      if (!in_cb) {
+        int rc = uv_loop_close(loop);
+        tok("z%d", rc);
+        if (rc == 0) { loop_closed = 1; free(copy); return; }
+      }
+      break;
     case 'r': op_start(a, 0); break;
     case 'w': op_write(a, b, c); break;
     case 'd': op_shutdown(a, b); break;
@@ -769,17 +814,22 @@ static void do_ops(const char* ops, int in_cb) {
       } else if (!in_cb) pool_fence();
       break;
     case 'R':
-      if (!in_cb) tok(".u%d", uv_run(loop, a == 1 ? UV_RUN_ONCE : UV_RUN_NOWAIT) ? 1 : 0);
+      if (!in_cb) { int r = uv_run(loop, a == 1 ? UV_RUN_ONCE : UV_RUN_NOWAIT); closing_phase = 0;
+                    tok(obs_mode ? "u%d" : ".u%d", r ? 1 : 0); }
       break;
     case 'Y':
       if (!in_cb) {
         int n = 0, r = 1;
         if (pool_blocked || fp_unfenced) pool_fence();
-        while (n++ < 200 && (r = uv_run(loop, UV_RUN_NOWAIT)) != 0) {}
+        while (n++ < 200 && (r = uv_run(loop, UV_RUN_NOWAIT)) != 0)
+          if (obs_mode) { closing_phase = 0; tok("u1"); emit_obs(); }
+        closing_phase = 0;
+        if (obs_mode) tok("u%d", r ? 1 : 0);
         tok(".Y%d", r ? 1 : 0);
       }
       break;
     }
+    if (!in_cb) emit_obs();
   }
   free(copy);
 }
@@ -806,6 +856,10 @@ static int run_case(char* line) {
   loop = &the_loop; uv_loop_init(loop);
   uv_prepare_init(loop, &mark_prepare); uv_prepare_start(&mark_prepare, mark_prepare_cb); uv_unref((uv_handle_t*) &mark_prepare);
   uv_check_init(loop, &mark_check); uv_check_start(&mark_check, mark_check_cb); uv_unref((uv_handle_t*) &mark_check);
+  obs_mode = getenv("C02_OBS") != NULL && getenv("C02_OBS")[0] == '1';
+  if (obs_mode) {   /* the two marker handles must not make uv_loop_close() busy */
+    mark_prepare.flags |= UV_HANDLE_INTERNAL; mark_check.flags |= UV_HANDLE_INTERNAL;
+  }
   p1 = strchr(line, ';');
   if (p1) {
     *p1++ = 0;
@@ -824,6 +878,7 @@ static int run_case(char* line) {
   }
   do_ops(line, 0);
   flush_y();
+  if (loop_closed) { printf("\n"); fflush(stdout); return 0; }
   /* wind down quietly: everything still open is closed, the loop must drain and close */
   quiet = 1; udp_block = 0;
   for (i = 0; i < nh; i++) HT[i].blocked = 0;
@@ -835,8 +890,10 @@ static int run_case(char* line) {
   for (i = 0; i < nh; i++)
     if (HT[i].inited && !HT[i].closed) tok("!never-closed%d", i);
   for (i = 0; i < nr; i++) if (!RT[i].done) tok("!never-called%d", RT[i].id);
+  if (obs_mode) { quiet = 0; emit_obs(); quiet = 1; }   /* the state uv_loop_close() is about to see */
   rc = uv_loop_close(loop);
   if (rc) tok("!loop_close%d", rc);
+  if (obs_mode) printf("z%d ", rc);
   if (rawl_fd >= 0) { close(rawl_fd); for (i = 0; i < 4; i++) close(rawl_fill[i]); }
   for (i = 0; i < nh; i++) if (HT[i].rawfd >= 0) close(HT[i].rawfd);
   if (rc == 0 && count_fds() != base_fds) tok("!fdleak%d", count_fds() - base_fds);
